@@ -56,8 +56,6 @@ package vgirpc
 //@   property C34
 //@   requires segOK(s) && wfTable(s)
 //@   modifies s.data[16:20], s.data[24:24+16*(cnt(s)+1)]
-//@   ensures [wfbounds] wfBounds(s)
-//@   ensures [wfsorted] wfSorted(s)
 //@   ensures [count] result1 ==> size > 0 && cnt(s) == old(cnt(s)) + 1 && result0 >= 65536 && result0 + size <= s.size
 //@   ensures [below] result1 ==> forall k int :: 0 <= k && k < old(cnt(s)) && old(entOff(s,k)) < result0 ==>
 //@       entOff(s,k) == old(entOff(s,k)) && entLen(s,k) == old(entLen(s,k))
@@ -71,6 +69,8 @@ package vgirpc
 //@       old(entOff(s,k)) + old(entLen(s,k)) <= result0 || result0 + size <= old(entOff(s,k))
 //@   ensures [fail] !result1 ==> result0 == 0 && cnt(s) == old(cnt(s)) && old(noFit(s, size)) &&
 //@       (forall k int :: 0 <= k && k < cnt(s) ==> entOff(s,k) == old(entOff(s,k)) && entLen(s,k) == old(entLen(s,k)))
+//@   ensures [wfbounds] wfBounds(s)
+//@   ensures [wfsorted] wfSorted(s)
 //@   loop 0 invariant rangeindex < len(allocs)
 //@   loop 0 invariant prevEnd == endOf(s, rangeindex+1)
 //@   loop 0 invariant forall k int :: 0 <= k && k <= rangeindex ==> gapBefore(s,k) < size
@@ -102,14 +102,18 @@ package vgirpc
 //@   property C34
 //@   requires segOK(s) && wfTable(s)
 //@   modifies s.data[16:20], s.data[24:24+16*cnt(s)]
-//@   ensures [wfbounds] wfBounds(s)
-//@   ensures [wfsorted] wfSorted(s)
 //@   ensures [removed] result == nil ==> cnt(s) == old(cnt(s)) - 1 &&
 //@       (forall k int :: 0 <= k && k < old(cnt(s)) && old(entOff(s,k)) < offset ==> entOff(s,k) == old(entOff(s,k)) && entLen(s,k) == old(entLen(s,k))) &&
 //@       (forall k int :: 1 <= k && k < old(cnt(s)) && old(entOff(s,k)) > offset ==> entOff(s,k-1) == old(entOff(s,k)) && entLen(s,k-1) == old(entLen(s,k)))
 //@   ensures [gone] result == nil ==> forall k int :: 0 <= k && k < cnt(s) ==> entOff(s,k) != offset
 //@   ensures [err] result != nil ==> cnt(s) == old(cnt(s)) &&
 //@       (forall k int :: 0 <= k && k < cnt(s) ==> entOff(s,k) == old(entOff(s,k)) && entLen(s,k) == old(entLen(s,k)) && entOff(s,k) != offset)
+//@   # positional form of [removed] (i is the index of the freed entry), a stepping stone for wf
+//@   ensures [local_shift_ret1] 0 <= i && i < old(cnt(s)) && cnt(s) == old(cnt(s)) - 1 &&
+//@       (forall k int :: 0 <= k && k < i ==> entOff(s,k) == old(entOff(s,k)) && entLen(s,k) == old(entLen(s,k))) &&
+//@       (forall k int :: i <= k && k < cnt(s) ==> entOff(s,k) == old(entOff(s,k+1)) && entLen(s,k) == old(entLen(s,k+1)))
+//@   ensures [wfbounds] wfBounds(s)
+//@   ensures [wfsorted] wfSorted(s)
 //@   loop 0 invariant rangeindex < len(allocs)
 //@   loop 0 invariant forall k int :: 0 <= k && k <= rangeindex ==> entOff(s,k) != offset
 //@   at call (*ShmSegment).writeAllocs assert len(allocs) == cnt(s) - 1 &&
